@@ -22,6 +22,14 @@ type cfgKey struct {
 	Kind string // string | bool | int | uint16 | duration | enum:<name>
 }
 
+// tagName is the key name of a mapstructure tag (options such as ",omitempty" or ",squash" are not part of it).
+func tagName(tag string) string {
+	if i := strings.IndexByte(tag, ','); i >= 0 {
+		return tag[:i]
+	}
+	return tag
+}
+
 // cfgKeys enumerates the leaf keys of config.AppConfig by reflection.
 func cfgKeys() []cfgKey {
 	var out []cfgKey
@@ -32,8 +40,8 @@ func cfgKeys() []cfgKey {
 		}
 		for i := 0; i < t.NumField(); i++ {
 			f := t.Field(i)
-			tag := f.Tag.Get("mapstructure")
-			if tag == "" {
+			tag := tagName(f.Tag.Get("mapstructure"))
+			if tag == "" || tag == "-" {
 				continue
 			}
 			path := tag
@@ -79,7 +87,7 @@ func getLeaf(cfg *config.AppConfig, path string) string {
 		t := v.Type()
 		found := false
 		for i := 0; i < t.NumField(); i++ {
-			if t.Field(i).Tag.Get("mapstructure") == part {
+			if tagName(t.Field(i).Tag.Get("mapstructure")) == part {
 				v = v.Field(i)
 				found = true
 				break
@@ -388,7 +396,7 @@ func TestC20Table(t *testing.T) {
 		}()
 		if (err == nil) != vc.valid {
 			msg := fmt.Sprintf("Validate() of configuration %q returned %v, expected valid=%v", vc.name, err, vc.valid)
-			path := fmt.Sprintf("%s/replays/C20/viol-TestC20Table-validate-%x.json", verifDir(), stats.Sig(vc.name))
+			path := fmt.Sprintf("%s/viol-TestC20Table-validate-%x.json", violDir("C20"), stats.Sig(vc.name))
 			writeReplay(path, "C20", "TestC20Table", map[string]string{"validation_case": vc.name}, msg)
 			stats.AddViolation(stats.Violation{Property: "C20", Replay: path, Message: msg})
 			t.Errorf("%s", msg)
